@@ -419,8 +419,8 @@ def c03c(ck, prog):
               how="delete() removes the entry from `values`" if physical else "filter compares the element's position")
     if physical:
         # after a physical removal the slots of *all* displaced elements (positions >= the removed one) must be re-indexed
-        g = removes[0].fn
-        rm = removes[0]
+        g = prog.flattened(removes[0].fn, r"Vec::<T, A>::remove$", combinators=True)    # `for_each(|..| ..)` read as the loop it is
+        rm = [c for c in g.calls() if c.bb == removes[0].bb and c.name == removes[0].name][0] if g is not removes[0].fn else removes[0]
         sw = rm.name == "swap_remove"
         loops = any(t for t in (g.term(b) for b in g.live_blocks()) if t["k"] == "call" and re.search(r"Iterator>?::next$", t.get("callee") or ""))
         ok = loops or sw
@@ -454,6 +454,28 @@ def c03c(ck, prog):
         rows = decision.const_table(g, prog)
         ok = any(any(isinstance(c[1], int) for c in conds) and val and "None" in str(val.get("desc", "")) for conds, val in rows) and \
             any(any(c[1] == "otherwise" for c in conds) and val and "Some" in str(val.get("desc", "")) for conds, val in rows)
+        if not ok:
+            # the same decision as an early return: `if position == NULL { return None }`
+            nullv = None
+            try:
+                nullv = guards.const_int(prog.const(r"IndexMap::<N, Value>::NULL$|IndexMap<N, Value>::NULL$"))
+            except Exception:
+                pass
+            kinds = {"None": [], "Some": []}
+            for bb, kind, pl in paths.ret_sites(g):
+                if kind not in kinds:
+                    continue
+                eq = ne = False
+                for fa in guards.facts_at(g, prog, bb):
+                    if fa.kind == "cmp" and fa.op in ("Eq", "Ne"):
+                        sides = [fa.lhs, fa.rhs]
+                        cs = [guards.const_int(x[-1][1]) if x and x[-1][0] == "const" else None for x in sides]
+                        named = ["NULL" in str(x[-1][1].get("def", "")) if x and x[-1][0] == "const" else False for x in sides]
+                        if any(named) or (nullv is not None and nullv in cs):
+                            eq = eq or fa.op == "Eq"
+                            ne = ne or fa.op == "Ne"
+                kinds[kind].append((eq, ne))
+            ok = bool(kinds["None"]) and bool(kinds["Some"]) and all(e and not n_ for e, n_ in kinds["None"]) and all(n_ and not e for e, n_ in kinds["Some"])
         ck.ob(R, "%s:null-is-none" % nm, ok, g.loc(None), "" if ok else "IndexMap::%s does not map the NULL slot to None" % nm, how="NULL => None")
 
 
